@@ -7,7 +7,7 @@ package auth
 // the build tag "verif". Syntax: /verif/DESIGN.md section 2.
 //
 //@ func (*Auth).LoginPost
-//@   property C01 C02 C03 C04 C16 C18 C17
+//@   property C01 C02 C03 C04 C07 C09 C16 C18 C17
 //@   ensures[C17] no_secret_leak: secrets_clean
 //@
 //@   -- C01: a session is written only after the hasher accepted the submitted
@@ -17,6 +17,11 @@ package auth
 //@       before Store.Load(?p) -> (?u, ?le) :: le == nil && p == v && h == Password(u) &&
 //@       before Body.Read("login") -> (?vals, ?re) :: re == nil && pw == val(vals, "GetPassword") && p == val(vals, "GetPID")
 //@   ensures[C01] halfauth_cleared: each Sess.Put("uid", _) => after Sess.Del("halfauth")
+//@   -- C07: the half-auth mark of a remembered session is only cleared by a login that is in fact
+//@   -- written to the session
+//@   ensures[C07] halfauth_only_cleared_by_login: each Sess.Del("halfauth") => before Sess.Put("uid", _)
+//@   -- C09: a login is announced with the after-auth event (which is what starts the idle clock)
+//@   ensures[C09] login_announced: each Sess.Put("uid", _) => after Fire("After", EventAuth, _, _, _)
 //@   ensures[C01] only_uid_and_halfauth: each Sess.Put(?k, _) => k == "uid"
 //@
 //@   -- C02: the auth-hijack event (2FA interception) is fired, for the user being
